@@ -238,6 +238,14 @@ def h_routes(h, kind):
         elif kind == 'from-isotherm-copy':
             i1 = pygaps.PointIsotherm(pressure=col(p), loading=col(n), branch=[0, 0, 1], **common)
             i2 = pygaps.PointIsotherm.from_isotherm(i1, isotherm_data=i1.data_raw.copy(), pressure_key='pressure', loading_key='loading')
+        elif kind.startswith('json-round-trip'):
+            import pygaps.parsing.json as pj
+            marks = {'json-round-trip/des-marks': [0, 0, 1], 'json-round-trip/all-des': [1, 1, 1], 'json-round-trip/all-ads': [0, 0, 0]}[kind]
+            if marks == [0, 0, 0]:
+                h.assume((p[2] > p[1]) & (p[1] > p[0]))       # (outside the C06 finding: the maximum is the last point)
+            i1 = pygaps.PointIsotherm(pressure=col(p), loading=col(n), branch=marks, **common)
+            with (stubs.patched((pj, 'json', FakeJson)) if h.sym else stubs.patched()):
+                i2 = pj.isotherm_from_json(pj.isotherm_to_json(i1))
         elif kind == 'metadata-key-order':
             from pygaps.core.baseisotherm import BaseIsotherm
             i1 = BaseIsotherm(**common, k1='a', k2='b')
@@ -248,9 +256,57 @@ def h_routes(h, kind):
             from pygaps.core.material import Material
             i1 = BaseIsotherm(**common)
             i2 = BaseIsotherm(**dict(common, material=Material('matM')))
-        for i in (i1, i2):
-            i._temperature = T
+        if not kind.startswith('json-round-trip'):       # (the importer calls float() on the temperature: kept concrete there)
+            for i in (i1, i2):
+                i._temperature = T
         h.claim(f'C05/routes/{kind}/same-identifier', same_id(h, i1.iso_id, i2.iso_id), regs)
+
+
+def h_equality(h, kind):
+    """== / != / membership on the REAL hashing path (md5, json, pandas hashing un-stubbed in both modes): concrete scenarios with
+    values that a value-comparing shortcut or a rounding step would treat differently from the identifier"""
+    import pygaps
+    from pygaps.core.baseisotherm import BaseIsotherm
+    from pygaps.core.modelisotherm import ModelIsotherm
+    isofix.quiet()
+    reach = h.real('reach', pos=True)
+    common = dict(material='matM', adsorbate='fakegas-placeholder', temperature=300.0, **isofix.DEFAULT_UNITS)
+    cid = f'C05/equality/{kind}'
+    if kind == 'nan-metadata':
+        i1 = BaseIsotherm(**common, note=float('nan'))
+        i2 = BaseIsotherm(**common, note=float('nan'))
+        same = True
+    elif kind == 'tuple-vs-list-metadata':
+        i1 = BaseIsotherm(**common, note=(1, 2))
+        i2 = BaseIsotherm(**common, note=[1, 2])
+        same = True
+    elif kind == 'int-vs-float-metadata':
+        i1 = BaseIsotherm(**common, note=1)
+        i2 = BaseIsotherm(**common, note=2)
+        same = False
+    elif kind.startswith('model-parameter'):
+        ka, kb = {'model-parameter-tiny': (1.5e-9, 4.5e-9), 'model-parameter-close': (0.123456789012, 0.123456789013)}[kind]
+        out = []
+        for kv in (ka, kb):
+            m = get_model('Langmuir')
+            m.params = {'K': kv, 'n_m': 2.0}
+            m.rmse = 1e-11 if kv == ka else 2e-11
+            out.append(ModelIsotherm(model=m, **common))
+        i1, i2 = out
+        same = False
+    elif kind == 'data-cell-above-threshold':
+        i1 = pygaps.PointIsotherm(pressure=[1.0, 2.0, 3.0], loading=[1.0, 2.0, 3.0], **common)
+        i2 = pygaps.PointIsotherm(pressure=[1.0, 2.0, 3.0], loading=[1.0, 2.0 + 2e-8, 3.0], **common)
+        same = False
+    elif kind == 'data-cell-below-threshold':
+        i1 = pygaps.PointIsotherm(pressure=[1.0, 2.0, 3.0], loading=[1.0, 2.0, 3.0], **common)
+        i2 = pygaps.PointIsotherm(pressure=[1.0, 2.0, 3.0], loading=[1.0, 2.0 + 2e-10, 3.0], **common)
+        same = True
+    ids_same = i1.iso_id == i2.iso_id
+    h.claim(f'{cid}/identifiers-{"equal" if same else "differ"}', ids_same == same, info=f'{i1.iso_id} {i2.iso_id}')
+    h.claim(f'{cid}/==-agrees-with-the-identifier', (i1 == i2) == same and (i1 != i2) == (not same) and (i1 == i1))
+    h.claim(f'{cid}/membership-agrees-with-the-identifier', (i2 in [i1]) == same and (i1 in [i2]) == same)
+    h.claim(f'{cid}/reached', reach > 0)
 
 
 def obligations(tier):
@@ -264,6 +320,10 @@ def obligations(tier):
     for k in ('interpolator-caches', 'accessors', 'repeated-read'):
         obs.append(Obligation(f'C05/invisible/{k}', h_invisible, (k,), bounds='k=3 points', **kw))
     for k in ('extra-column-order', 'arrays-vs-table', 'row-labels', 'branch-in-table-vs-argument', 'branch-bool-vs-int', 'branch-word-vs-marks',
-              'lists-vs-arrays', 'integer-vs-float-literals', 'from-isotherm-copy', 'metadata-key-order', 'material-name-vs-object'):
+              'lists-vs-arrays', 'integer-vs-float-literals', 'from-isotherm-copy', 'metadata-key-order', 'material-name-vs-object',
+              'json-round-trip/des-marks', 'json-round-trip/all-des', 'json-round-trip/all-ads'):
         obs.append(Obligation(f'C05/routes/{k}', h_routes, (k,), bounds='k=3 points', **kw))
+    for k in ('nan-metadata', 'tuple-vs-list-metadata', 'int-vs-float-metadata', 'model-parameter-tiny', 'model-parameter-close',
+              'data-cell-above-threshold', 'data-cell-below-threshold'):
+        obs.append(Obligation(f'C05/equality/{k}', h_equality, (k,), bounds='concrete scenario on the un-stubbed hashing path', **kw))
     return obs
